@@ -8,6 +8,8 @@
 //       fatal=<errno-name>@<byte offset>               unrecoverable: from that many
 //                                                      delivered bytes on, write fails
 //                                                      (ENOSPC | EPIPE | EAGAIN | EIO)
+//  write(fd=2)        -> errshort=<per1000>,erreintr=<per1000> in the same plan: recoverable
+//                        faults on standard error (the trap report)
 //     every fired fault is appended to the file named by VERIF_IO_LOG as one line.
 // Built with: gcc -shared -fPIC -O2 -o verifenv.so verifenv.c -ldl
 #define _GNU_SOURCE
@@ -35,7 +37,7 @@ static int (*real_clock_gettime)(clockid_t, struct timespec *);
 
 static int io_init_done;
 static uint64_t io_state;
-static int io_short, io_eintr;
+static int io_short, io_eintr, io_errshort, io_erreintr;
 static int io_fatal_errno;
 static long io_fatal_at = -1;
 static long io_delivered;
@@ -60,6 +62,8 @@ static void io_init(void) {
     if (!strncmp(tok, "seed=", 5)) io_state = strtoull(tok + 5, NULL, 10);
     else if (!strncmp(tok, "short=", 6)) io_short = atoi(tok + 6);
     else if (!strncmp(tok, "eintr=", 6)) io_eintr = atoi(tok + 6);
+    else if (!strncmp(tok, "errshort=", 9)) io_errshort = atoi(tok + 9);
+    else if (!strncmp(tok, "erreintr=", 9)) io_erreintr = atoi(tok + 9);
     else if (!strncmp(tok, "fatal=", 6)) {
       char *at = strchr(tok, '@');
       if (at) { *at = 0; io_fatal_at = atol(at + 1); }
@@ -72,8 +76,22 @@ static void io_init(void) {
 
 ssize_t write(int fd, const void *buf, size_t n) {
   if (!real_write) real_write = dlsym(RTLD_NEXT, "write");
-  if (fd != 1) return real_write(fd, buf, n);
+  if (fd != 1 && fd != 2) return real_write(fd, buf, n);
   if (!io_init_done) io_init();
+  if (fd == 2) {
+    // recoverable faults only on standard error
+    if (io_erreintr > 0 && (int)(splitmix(&io_state) % 1000) < io_erreintr) {
+      io_log("err-eintr", 0, (long)n);
+      errno = EINTR;
+      return -1;
+    }
+    if (io_errshort > 0 && n > 1 && (int)(splitmix(&io_state) % 1000) < io_errshort) {
+      size_t k = 1 + (size_t)(splitmix(&io_state) % (n - 1));
+      io_log("err-short", (long)k, (long)n);
+      return real_write(fd, buf, k);
+    }
+    return real_write(fd, buf, n);
+  }
   if (io_fatal_at >= 0) {
     if (io_delivered >= io_fatal_at) {
       io_log("fatal", io_fatal_errno, (long)n);
